@@ -365,6 +365,10 @@ def compare_cg(ctx, case, out, mod):
             break
         for key, scale_abs in (("curv", 0.0), ("alpha", 0.0), ("gamma", 0.0), ("gnsq", 0.0), ("value", 1e-9 * sc * sc)):
             mv = _approx(m[key])
+            if not exact and max(abs(a[key]), abs(mv)) > 0:      # measured class-T noise, reported in the evidence
+                dev = abs(a[key] - mv) / max(abs(a[key]), abs(mv))
+                if dev <= rt:
+                    ctx.extra["max_rel_dev_" + key] = max(ctx.extra.get("max_rel_dev_" + key, 0.0), dev)
             if not (_close(a[key], mv, rt, scale_abs if not exact else 0.0)):
                 return f"iteration {k + 1}: {key} impl={a[key]!r} model={mv!r}"
         if a["reset"] != m["reset"]:
@@ -608,6 +612,8 @@ def run(ctx):
         cases += [gen.cg_case(rng, nmax=40, nmin=9) for _ in range(48)]
     cases += gen.ie_cases(rng, ctx.n(160, 900))
     _dispatch(ctx, cases)
+    ctx.extra["class_T_tolerance"] = TOL
+    ctx.extra["decision_margin"] = MARGIN
 
 
 def shrink(case):
